@@ -47,6 +47,9 @@ func ManageDeployment(client runtimeclient.Client, daemonset *datadoghqv1alpha1.
 
 	allPodToCreate := []*NodeItem{}
 	allPodToDelete := []*NodeItem{}
+	// outdated pods that are already unavailable are replaced first: deleting them does not
+	// consume the maxUnavailable budget
+	unavailablePodToDelete := []*NodeItem{}
 
 	nbNodes := len(params.PodByNodeName)
 
@@ -71,16 +74,16 @@ func ManageDeployment(client runtimeclient.Client, daemonset *datadoghqv1alpha1.
 			allPods++
 			// Check for any differences between stored pod and existing pod
 			if !compareCurrentPodWithNewPod(params, pod, node) {
-				if pod.DeletionTimestamp == nil {
-					allPodToDelete = append(allPodToDelete, node)
-				} else {
+				if pod.DeletionTimestamp != nil {
 					podsTerminating++
 
 					continue
 				}
 				if podutils.IsPodAvailable(pod, 0, metaNow) {
+					allPodToDelete = append(allPodToDelete, node)
 					oldAvailablePods++
 				} else {
+					unavailablePodToDelete = append(unavailablePodToDelete, node)
 					oldUnavailablePods++
 				}
 			} else {
@@ -94,6 +97,8 @@ func ManageDeployment(client runtimeclient.Client, daemonset *datadoghqv1alpha1.
 			}
 		}
 	}
+
+	allPodToDelete = append(unavailablePodToDelete, allPodToDelete...)
 
 	// Retrieves parameters for calculation
 	maxUnavailable, err := intstrutil.GetValueFromIntOrPercent(params.Strategy.RollingUpdate.MaxUnavailable, nbNodes, true)
